@@ -290,3 +290,31 @@ Definition sealed_state (p : plan) (s : fs) : Prop :=
   (s Docs = None \/ intact (s Docs) = true) /\ (s Meta = None \/ intact (s Meta) = true) /\
   (if skip_sort p then s Sdocs = None /\ intact (s Docs) = true
    else complete (sdocs_writes p) (s Sdocs) = true /\ durable (s Sdocs) = true).
+
+(* ---- write faults ---- *)
+(* the fault really strikes: the fk-th write of the target file exists in this seal *)
+Definition fault_hits (p : plan) (x : fault) : Prop :=
+  (ftarget x = IndexTmp /\ 1 <= fk x <= length (flat_sizes p) + 2)%nat
+  \/ (ftarget x = SdocsTmp /\ skip_sort p = false /\ 1 <= fk x <= length (sd_writes p))%nat.
+
+(* operations that publish the index or remove a file *)
+Definition no_publish_op (o : op) : bool :=
+  match o with ORename IndexTmp Index | OUnlink _ => false | _ => true end.
+
+(* ---- any number of interrupted seals and restarts ---- *)
+(* directories that can be met at a restart, for a fixed SkipSortDocs setting: the start state,
+   then repeatedly: restart (the loader may clean up), power loss at any time, and - if the
+   fraction came up active - another seal attempt (any corpus-dependent sizes, any write fault)
+   interrupted anywhere *)
+Inductive reachable (sk : bool) : fs -> Prop :=
+| r_init : forall p s, skip_sort p = sk -> inv p s -> reachable sk s
+| r_restart : forall s keep, reachable sk s -> reachable sk (power_loss keep (snd (load s)))
+| r_seal : forall s p flt l keep,
+    reachable sk s -> skip_sort p = sk -> fst (load s) = LActive ->
+    tprefix l (fst (seal p flt)) ->
+    reachable sk (power_loss keep (run l (snd (load s)))).
+
+(* served by some complete seal with that setting (the sizes of the seal that produced the
+   index are whatever that attempt's corpus encoding gave) *)
+Definition served (sk : bool) (s : fs) : Prop :=
+  exists p, skip_sort p = sk /\ serves_all p (load s) = true.
